@@ -436,3 +436,38 @@ func init() {
 		c.NeverAfter("(*internal/timeseries.timeSeries).AddWithTime", Stores("internal/timeseries.timeSeries.pendingTime"), Calls("(*internal/timeseries.timeSeries).mergePendingUpdates"), false)
 	})
 }
+
+func init() {
+	// C60-3 (the length octet dropped from InterfaceInfo.nameLen): marshalName writes one length octet followed by
+	// the name, so the space reserved must be the 4-byte round-up of 1 + len(name).
+	ExtraClause("C60", "Also: InterfaceInfo.nameLen reserves the 4-byte round-up of at least 1 + len(Name) (length octet plus name), as marshalName writes.")
+	RegisterExtra("C60", func(c *Ctx) {
+		const name = "(*icmp.InterfaceInfo).nameLen"
+		fn := c.MustFn(name)
+		if fn == nil {
+			return
+		}
+		n := 0
+		for _, r := range Returns().F(c.P, fn) {
+			v := r.(*ssa.Return).Results[0]
+			if _, isK := v.(*ssa.Const); isK {
+				continue
+			}
+			n++
+			// (x + 3) &^ 3
+			bo, ok := v.(*ssa.BinOp)
+			if !ok || bo.Op != token.AND_NOT {
+				c.Fail("reserves-length-octet", name+": computed result is a 4-byte round-up", r.Pos(), "result `"+Term(v)+"` is not (x+3)&^3")
+				continue
+			}
+			inner := Linearize(bo.X) // x + 3
+			want := Lin{Coef: map[string]int64{"len($r.Interface.Name)": 1}, K: 4}
+			d := inner.Sub(want)
+			c.Check(d.IsConst() && d.K >= 0, "reserves-length-octet", name+": rounds up at least 1 + len(Name)", r.Pos(), "",
+				"rounds up "+inner.AddK(-3).String()+", but marshalName writes 1 + len(Name) octets: a name whose length is a multiple of 4 overflows its field by one octet")
+		}
+		if n == 0 {
+			c.Undecided("reserves-length-octet", name, "no computed return found")
+		}
+	})
+}
